@@ -26,6 +26,7 @@ FAMILIES = {
     "compose": "harness.check_compose",
     "inherit": "harness.check_inherit",
     "template": "harness.check_template",
+    "outline": "harness.check_outline",
 }
 # property -> families whose judges print verdicts for it
 PROPS = {
@@ -47,7 +48,7 @@ PROPS = {
     "C17": ["batch"],
     "C01": ["formats", "compose"], "C02": ["formats", "compose"],
     # beyond the listed properties (not in MANIFEST.json; evidence goes to build/)
-    "X01": ["inherit"], "X02": ["template"],
+    "X01": ["inherit"], "X02": ["template"], "X03": ["outline"],
 }
 EXPLAIN = {}
 
